@@ -378,14 +378,13 @@ def _thms(ns, names):
     return ["EsbuildModel.%s.%s" % (ns, n) for n in names.split()]
 
 
-# metafile (C19): byte attribution of the metafile (held back until the model follows the duplicate-key fix in /repo)
-_HELD("C19",
+# metafile (C19): byte attribution of the metafile
+_extend("C19",
     lean_modules=["EsbuildModel.Props.C19Metafile"],
     theorems=_thms("C19Meta", "output_is_concatenation_of_contributions attribution_sums_below_size attribution_is_contribution zero_iff_no_bytes "
-                   "wellKeyed_is_checked css_attribution_sums_below_size css_reader_gets_last_copy css_attribution_is_contribution_partial "
+                   "wellKeyed_is_checked css_attribution_sums_below_size css_keys_distinct css_attribution_is_contribution css_zero_iff_no_bytes "
                    "reported_bytes_is_length css_reported_bytes_is_length dec_value entry_numeral json_text_lists_entries css_json_text_lists_entries input_bytes_numeral"),
-    open=["C19Meta.css_attribution_is_contribution: FALSE of the code when one CSS file has two compile results in a chunk (@import of the same file under two conditions): generateChunkCSS prints one 'inputs' entry per compile result -> duplicate JSON key, a reader keeps the last (proved: css_reader_gets_last_copy; known finding c19-css-duplicate-input-key)",
-          "C19Meta: the text in front of the first / behind the last compile result (hashbang, banner, directives, IIFE wrapper, cross-chunk code, entry-point tail, legal comments at end of file, footer) is an input of the model (nobody's bytes), not derived"],
+    open=["C19Meta: the text in front of the first / behind the last compile result (hashbang, banner, directives, IIFE wrapper, cross-chunk code, entry-point tail, legal comments at end of file, footer) is an input of the model (nobody's bytes), not derived"],
     kernels=[("metafile", 2000, 60000)],
     scope="internal/linker/linker.go: the compile-result loop of generateChunkJS (file-path comments, the newline in front of them, prevFileNameComment, OmitFromSourceMapsAndMetafile, metaOrder/metaBytes) and of generateChunkCSS; breakJoinerIntoPieces incl. the Joiner.Contains shortcut; breakOutputIntoPieces per slice and on the whole chunk; jsonMetadataChunkCallback (accurateFinalByteCount per input, text of inputs/bytes, MaybeRemoveWhitespace); the head of the output JSON (imports/exports/entryPoint/cssBundle) and its path substitution; what generateChunksInParallel appends (legal-comment link, source-map comment, EnsureNewlineAtEnd) and len(outputContents); internal/bundler/bundler.go: the input metadata chunk (bytes/imports/format) and generateMetadataJSON — modelled (Impl/Metafile.lean) and tied through the metafile hook on real builds",
     assumptions=["metafile: WellKeyed (the unique-key prefix occurs in the chunk only as the head of a complete valid key lying inside one joined part) is decidable (wellKeyedB, proved equivalent) and reported for every real chunk by the kernel", "metafile: pretty paths of the inputs of one chunk are distinct", "metafile: JavaScript compile results are obtained by running the real generateCodeForFileInChunkJS / renameSymbolsInChunk a second time in the hook (a mismatch with the chunk text is reported as a disagreement); CSS compile results are cut out of the chunk text by the harness"])
